@@ -185,6 +185,27 @@ pub fn gen_workload(r: &mut Rng, o: &WlOpts) -> Workload {
     Workload { docs, progs, params, tests, template, overrides: BTreeMap::new(), mtimes: BTreeMap::new(), mtime_base_s: 1_700_000_000 }
 }
 
+/// Append a comment full of multi-byte characters to every line of a rules or YAML text:
+/// any byte-offset arithmetic on the text (excerpts, truncation, columns) then lands inside
+/// a character with high probability. Comments do not change the meaning of either format.
+pub fn utf8_densify(r: &mut Rng, text: &[u8]) -> Vec<u8> {
+    let pools: &[&str] = &["é", "ü", "日", "本", "😀", "ｆ", "ж", "€", "ß"];
+    let mut out = Vec::with_capacity(text.len() * 2);
+    for line in text.split_inclusive(|b| *b == b'\n') {
+        let (body, nl) = if line.ends_with(b"\n") { (&line[..line.len() - 1], &b"\n"[..]) } else { (line, &b""[..]) };
+        out.extend_from_slice(body);
+        if r.chance(3, 4) {
+            out.extend_from_slice(b" # ");
+            let n = 1 + r.usize(24);
+            for _ in 0..n {
+                out.extend_from_slice(r.pick(pools).as_bytes());
+            }
+        }
+        out.extend_from_slice(nl);
+    }
+    out
+}
+
 /// Output comparison mode of a step.
 #[derive(Clone, Copy, Debug, PartialEq, Eq)]
 pub enum Mode {
